@@ -168,6 +168,41 @@ func prepareOverlay(rels []string, workDir string, extra map[string]string) (map
 			ov[filepath.Join(repoDir, filepath.Base(f))] = f
 		}
 	}
+	// native instrumentation of pkg/db (C13 monitor): db.go is overlaid by a copy regenerated from the
+	// current source with counting calls inserted into Write / Set / Del
+	if _, err := os.Stat(filepath.Join(verifRoot, "harness", "pkg", "db", "zz_verif_model_native.go")); err == nil {
+		for _, rel := range rels {
+			if rel != "pkg/db" {
+				continue
+			}
+			src, err := os.ReadFile(filepath.Join(repoRoot, "pkg/db/db.go"))
+			if err != nil {
+				return nil, err
+			}
+			text := string(src)
+			for _, ins := range [][2]string{
+				{"func (db *DB) Write(batch *Batch) {\n", "\tzzCount(db, 0)\n"},
+				{"func (db *DB) Set(key, value []byte) {\n", "\tzzCount(db, 1)\n"},
+				{"func (db *DB) Del(key []byte) {\n", "\tzzCount(db, 1)\n"},
+			} {
+				if strings.Count(text, ins[0]) != 1 {
+					return nil, fmt.Errorf("cannot instrument pkg/db/db.go: pattern %q not found exactly once", strings.TrimSpace(ins[0]))
+				}
+				text = strings.Replace(text, ins[0], ins[0]+ins[1], 1)
+			}
+			gen := filepath.Join(workDir, "gen", "pkg/db")
+			os.MkdirAll(gen, 0o755)
+			if err := os.WriteFile(filepath.Join(gen, "db.go"), []byte("//go:build verif\n\n"+text), 0o644); err != nil {
+				return nil, err
+			}
+			// the original file must be excluded under the tag: overlay it with the instrumented copy instead
+			os.WriteFile(filepath.Join(gen, "db.go"), []byte(text), 0o644)
+			ov[filepath.Join(repoRoot, "pkg/db/db.go")] = filepath.Join(gen, "db.go")
+			instr := "//go:build verif\n\npackage db\n\nfunc init() { zzNativeInstrumented = true }\n"
+			os.WriteFile(filepath.Join(gen, "zz_verif_instr.go"), []byte(instr), 0o644)
+			ov[filepath.Join(repoRoot, "pkg/db/zz_verif_instr.go")] = filepath.Join(gen, "zz_verif_instr.go")
+		}
+	}
 	// overlay.json for go test
 	type ovj struct {
 		Replace map[string]string
